@@ -38,6 +38,10 @@ CHECKS = {
                 text="_call_impl / KDComposeCollator.__call__ / KDSingleCollatorWrapper.__call__: default_collate at most once and exactly when a member asks, every member sees the layout its mode asks for, "
                      "(batch, ctx) iff configured, ctx is the batch's own batched context; obligations on explicitly rejected member orders are excused; the padding collator is bounded only",
                 note=TRUST + "; torch default_collate (dict key set preserved, list->batch) assumed"),
+    "C19": dict(level="proof", technique="contract-based deductive verification with rely/guarantee interference (map invariant as obligation at every atomic step, AST->SMT incl. try/except) + bounded real-process stand-in",
+                text="_cached_getitem returns the wrapped dataset's sample and re-establishes the map invariant for sequential histories, concurrent readers and concurrent clears "
+                     "(no KeyError may escape); dispose empties the map; the post-cache transform is applied on every access; base reads only for uncached indices",
+                note=TRUST + "; Manager().dict() operations atomic, values round-trip through pickle to equal values, deterministic base dataset"),
     "C20": dict(level="other", technique="contract-based deductive verification in a crash Hoare logic over an abstract file system (one SMT obligation per crash-exposed state of every FS call of the real bodies) + fault-injection stand-in on the real functions",
                 text="CI (marker protocol invariant) is precondition and must hold in every state a crash can expose; post-conditions for complete copy / untouched user folder / idempotence / truthful result. "
                      "42 of 48 obligations are discharged; 3 crash windows per function genuinely violate CI (replayed by crash injection) and are listed as known findings, so the claim is 'other', not 'proof'",
